@@ -35,7 +35,7 @@ int main(int argc, char **argv)
         std::set<std::string> seenkey;
         std::set<std::string> force = {"0.0", "-0.0", "nan#0", "nan#1", "nan#0'", "inf", "-inf", "oo", "-oo", "zoo", "NaN", "1", "1.0", "x", "x'",
                                        "MIntPoly({x};3)", "MIntPoly({y};3)", "MIntPoly({};3)", "MIntPoly({x};0)", "MIntPoly({y};0)",
-                                       "MExprPoly({x};3)", "MExprPoly({y};3)", "2^64", "2^64+1", "2^64+2^32", "dummy1(x)", "dummy2(x)",
+                                       "MExprPoly({x};3)", "MExprPoly({y};3)", "2^64", "2^64+1", "2^64+2^32", "10^40", "2^128+5", "-(2^200)", "5", "(2^64+1)/3", "1/(2^64+1)", "dummy1(x)", "dummy2(x)",
                                        "{1,2}", "{2,1}", "x+y", "y+x", "cd(0,1)", "cd(-0,1)", "cd(1,0)", "cd(1,-0)", "cd(nan,0)"};
         for (auto &u : W.U) {
             int tc = u.e->get_type_code();
